@@ -85,7 +85,7 @@ type rqDomain struct {
 	shards     int
 }
 
-func rqDomains(c *core.Ctx, bs, bd int) []rqDomain {
+func rqDomains(c *core.Ctx, bs, bd int, named bool) []rqDomain {
 	var ds []rqDomain
 	switch {
 	case bs == 8:
@@ -93,7 +93,9 @@ func rqDomains(c *core.Ctx, bs, bd int) []rqDomain {
 		ds = append(ds, rqDomain{"all (each value 67x)", genRepeat(minAmp(bs), maxAmp(bs), 67), true, true, 1})
 	case bs <= 16:
 		ds = append(ds, rqDomain{"all", genRange(minAmp(bs), maxAmp(bs)), true, true, 1})
-	case bs == 32 && !c.Quick():
+	case bs == 32 && !c.Quick() && !named:
+		// (instantiations with a named element type share their code with the built-in twin: they get the
+		// alphabet, not all 2^32 values)
 		ds = append(ds, rqDomain{"all", genRange(minAmp(bs), maxAmp(bs)), true, true, 64})
 	default:
 		ds = append(ds, rqDomain{"boundary-alphabet", genList(boundaryAlphabet(bs)), true, false, 1})
@@ -162,7 +164,7 @@ func rqRun(which string) func(c *core.Ctx) {
 				inst++
 				name := dyn.ConvName(s, d) + "/" + ts.Name + "->" + td.Name
 				allExh := true
-				doms := rqDomains(c, ts.Bits, td.Bits)
+				doms := rqDomains(c, ts.Bits, td.Bits, ts.Named || td.Named)
 				if (ts.Named || td.Named) && len(doms) > 1 {
 					doms = doms[:1] // named instantiations: the primary domain only (the rest is covered by the built-in twin)
 				}
